@@ -23,6 +23,12 @@ impl Rng {
 	pub fn chance(&mut self, num: u64, den: u64) -> bool {
 		self.below(den) < num
 	}
+	pub fn shuffle<T>(&mut self, xs: &mut [T]) {
+		for i in (1..xs.len()).rev() {
+			let j = self.below(i as u64 + 1) as usize;
+			xs.swap(i, j);
+		}
+	}
 	pub fn pick<'a, T>(&mut self, xs: &'a [T]) -> &'a T {
 		&xs[self.below(xs.len() as u64) as usize]
 	}
